@@ -99,9 +99,9 @@ func pad(b []byte, n int) []byte { return append(make([]byte, n), b...) }
 
 func rsaMats(m RSAMat) []Mat {
 	k := m.K
-	return []Mat{{Name: "n", B: k.N, BigInt: true}, {Name: "d", B: k.D, Secret: true, BigInt: true}, {Name: "p", B: k.P, Secret: true, BigInt: true},
-		{Name: "q", B: k.Q, Secret: true, BigInt: true}, {Name: "dp", B: k.DP, Secret: true, BigInt: true}, {Name: "dq", B: k.DQ, Secret: true, BigInt: true},
-		{Name: "qinv", B: k.QInv, Secret: true, BigInt: true}}
+	return []Mat{{Name: "n", B: k.N, BigInt: true, Field: "n"}, {Name: "d", B: k.D, Secret: true, BigInt: true, Field: "d"}, {Name: "p", B: k.P, Secret: true, BigInt: true, Field: "p"},
+		{Name: "q", B: k.Q, Secret: true, BigInt: true, Field: "q"}, {Name: "dp", B: k.DP, Secret: true, BigInt: true, Field: "dp"}, {Name: "dq", B: k.DQ, Secret: true, BigInt: true, Field: "dq"},
+		{Name: "qinv", B: k.QInv, Secret: true, BigInt: true, Field: "crt"}}
 }
 
 // rsaExponents is the over-large public-exponent domain.
